@@ -99,7 +99,7 @@ def run(ctx):
                 ctx.fail("commutes_with:wrong", desc, bool(np.array_equal(A @ B, B @ A)), bool(pa.commutes_with(pb)))
 
     # ---------------------------------------------------------------- single strings
-    singles = list(L1) + [(a[0], a[1], q) for a in L2 for q in range(4)]
+    singles = [([], [], q) for q in range(4)] + list(L1) + [(a[0], a[1], q) for a in L2 for q in range(4)]
     for _ in range(600 if ctx.thorough else 120):
         singles.append(rand_p(rng, rng.randint(1, 6 if ctx.thorough else 5)))
     for a in singles:
